@@ -40,6 +40,9 @@ def rand_change(rng, text):
     if kind < .25: q = dict(p)                                         # zero width
     elif kind < .4 and p["line"] < len(spans):                        # whole line incl. its break
         p = {"line": p["line"], "character": 0}; q = {"line": p["line"] + 1, "character": 0}
+    elif kind < .5 and p["line"] < len(spans):                        # the content of a line without its break (may join a CR and a LF around it)
+        a_, e_, _n = spans[p["line"]]
+        p = {"line": p["line"], "character": 0}; q = {"line": p["line"], "character": u16len(text[a_:e_])}
     else: q = rand_pos(rng, text, spans)
     a = lspmodel.offset(text, p["line"], p["character"], spans); b = lspmodel.offset(text, q["line"], q["character"], spans)
     if b < a: p, q = q, p
